@@ -370,6 +370,10 @@ class Engine:
             es = s.sizeof(t.el); return [s.load(st, addr + i * es, t.el) for i in range(t.n)]
         n = s.sizeof(t)
         v = s.from_bytes(s.load_bytes(st, addr, n))
+        if v is UNDEF and isinstance(t, TInt) and t.bits >= 8:
+            # an uninitialised integer word becomes a TAGGED fresh symbol: masking it away (bit-fields, std::vector<bool> words) is
+            # harmless, while a branch / address that really depends on it is reported as an uninitialised use
+            s.nsym += 1; v = z3.BitVec('undef%d' % s.nsym, t.bits); s.undef_syms.add(v.decl().name())
         if isinstance(t, TInt) and t.bits == 1 and not is_sym(v) and v is not UNDEF: v &= 1
         if isinstance(t, TInt) and t.bits == 1 and is_sym(v): v = z3.Extract(0, 0, v)
         return v
@@ -839,7 +843,12 @@ class Engine:
         c = (cond == 1) if cond.size() == 1 else (cond != 0)
         if s.undef_syms:
             c = z3.simplify(c)
-            if any(v.decl().name() in s.undef_syms for v in z3_vars(c)): raise Violation('branch on uninitialised value in %s' % fr.fn.name)
+            us = [v for v in z3_vars(c) if v.decl().name() in s.undef_syms]
+            if us:
+                # does the outcome really depend on the uninitialised bits?  (c with the tagged symbols renamed must be able to differ)
+                ren = [(u, z3.BitVec(u.decl().name() + '_alt', u.size())) for u in us]
+                if s.feasible(st, c != z3.substitute(c, *ren)): raise Violation('branch on uninitialised value in %s' % fr.fn.name)
+                c = z3.simplify(z3.substitute(c, *[(u, z3.BitVecVal(0, u.size())) for u in us]))
         ta = s.feasible(st, c); tb = s.feasible(st, z3.Not(c))
         if ta and tb:
             s.stats['forks'] += 1
@@ -1679,6 +1688,15 @@ BUILTIN_MODELS.update({
     '_ZNSt16invalid_argumentC1EPKc': lambda e, st, a: None, '_ZNSt16invalid_argumentD1Ev': lambda e, st, a: None,
 })
 STD_EXC_BASES.update({'bad_cast': ('@_ZTISt8bad_cast', '@_ZTISt9exception'), 'bad_function_call': ('@_ZTISt17bad_function_call', '@_ZTISt9exception'), 'system_error': ('@_ZTISt12system_error', '@_ZTISt13runtime_error', '@_ZTISt9exception')})
+def m_localeconv(e, st, args):
+    if not hasattr(st, 'lconv'):
+        a = e.alloc(st, 128, 'global'); e.store_bytes(st, a, [0] * 128)
+        dot = e.alloc(st, 2, 'global'); e.store_bytes(st, dot, [46, 0]); emp = e.alloc(st, 1, 'global'); e.store_bytes(st, emp, [0])
+        e.store(st, a, I64, dot)
+        for k in range(1, 10): e.store(st, a + 8 * k, I64, emp)
+        st.lconv = a
+    return st.lconv
+BUILTIN_MODELS.update({'localeconv': m_localeconv})
 BUILTIN_MODELS.update({'gettimeofday': m_gettimeofday})
 BUILTIN_MODELS.update({'getcontext': m_getcontext, 'makecontext': m_makecontext, 'swapcontext': m_swapcontext})
 
